@@ -807,7 +807,7 @@ def require_guard(ctx, body, spec, rule, targets=None, cut_back_edges=True, star
         return True
     if bad and path is not None:
         b = bad[0][0]
-        ctx.violate(rule, body.path, "%s: comparison at %s has the wrong strictness/polarity on its passing edge (%s)" % (what, body.loc(b), bad[0][2]["ops"]), site=body.loc(b), key="%s|%s|polarity" % (rule, body.path))
+        ctx.violate(rule, body.path, "%s: comparison at %s has the wrong strictness/polarity on its passing edge (%s)" % (what, body.loc(b), bad[0][2].get("ops", "boolean predicate")), site=body.loc(b), key="%s|%s|polarity" % (rule, body.path))
         return False
     rp = body.render_path(path) if path else []
     ctx.violate(
